@@ -1,6 +1,6 @@
 (* Evaluation lemmas for the host-level functions of Cluster/PubSub.v: "pure forms" of the
    monadic transcriptions, and what each of them does to the membership function [mem]. *)
-From VT Require Import Manager.ManagerProofs Manager.RoomsProofs Manager.AckProofs Base.PyStrProofs Check.C03Check.
+From VT Require Import Manager.ManagerProofs Cluster.RoomsFacts Manager.AckProofs Base.PyStrProofs.
 From VT Require Import Cluster.PubSub.
 From Coq Require Import Lia Permutation.
 Open Scope N_scope.
